@@ -234,7 +234,7 @@ else:
         current_path = f"{path}.{name}" if path else name
 
         if value is None:
-            if _is_optional(expected):
+            if _is_optional(expected) or expected is Any:
                 return None
             raise ValidationError("field required", current_path, "missing")
 
@@ -611,12 +611,13 @@ else:
         def __init__(self, **data: Any):
             # Process aliases
             processed_data = self._process_aliases(data)
+            provided = set(processed_data)
 
             # Build field values
             values = self._build_field_values(processed_data)
 
             # Validate required fields
-            self._validate_required_fields(values)
+            self._validate_required_fields(values, provided=provided)
 
             # Validate types
             self._validate_types(values)
@@ -658,11 +659,26 @@ else:
 
             return values
 
-        def _validate_required_fields(self, values: Dict[str, Any]):
+        def _validate_required_fields(
+            self, values: Dict[str, Any], provided: Optional[Set[str]] = None
+        ):
             """Validate that all required fields are present."""
             missing = []
             for name in self.__class__.__model_required__:
                 if values.get(name) is None:
+                    # A required field annotated Any that was explicitly given
+                    # as None is present (e.g. a JSON-RPC "result": null)
+                    if provided is not None and name in provided:
+                        annotation = next(
+                            (
+                                klass.__dict__.get("__annotations__", {}).get(name)
+                                for klass in type(self).__mro__
+                                if name in klass.__dict__.get("__annotations__", {})
+                            ),
+                            None,
+                        )
+                        if annotation is Any:
+                            continue
                     missing.append(name)
 
             if missing:
